@@ -40,7 +40,7 @@ BUDGET = {"quick": 90, "thorough": 1500}
 CHUNK = 8
 PROBES = ["pos", "wrongkey", "byz_client", "byz_server", "aead_keys_checked",
           "mac_checked", "finished_checked", "exporter_checked",
-          "expansion_checked", "split_1n1"]
+          "expansion_checked", "split_1n1", "keyupdate_keys_checked"]
 COMPONENTS_REAL = ["tlslite handshake + record layer + constants tables"]
 COMPONENTS_STUB = ["socket", "os.urandom", "clock",
                    "byzantine peer = real TLSConnection with "
@@ -447,6 +447,38 @@ def run(job, streams=None):
                               "HMAC-%s under the RFC key-block MAC key" %
                               (w, hm))
                         probes["mac_checked"] = 1
+    # --- TLS 1.3: traffic keys after a KeyUpdate in each direction
+    if ver == (3, 4) and not viol:
+        sess0 = pair.c.conn.session
+        old = {"c": bytes(sess0.cl_app_secret), "s": bytes(sess0.sr_app_secret)}
+
+        def op_gen2(ep, op):
+            if op[1] == "ku":
+                return lambda: ep.conn.send_keyupdate_request(0)
+            if op[1] == "write":
+                return lambda: ep.conn.writeAsync(b"after-ku")
+            return lambda: ep.conn.readAsync(None, 8)
+        st = sim_script.run_script(
+            sim, eps, [["c", "ku"], ["c", "write"], ["s", "read"],
+                       ["s", "ku"], ["s", "write"], ["c", "read"]], op_gen2)
+        hlen = hashlib.new(hname).digest_size
+        for who in "cs":
+            new = mprf.hkdf_expand_label(hname, old[who], b"traffic upd",
+                                         b"", hlen)
+            key = mprf.hkdf_expand_label(hname, new, b"key", b"",
+                                         suite.key_len)
+            iv = mprf.hkdf_expand_label(hname, new, b"iv", b"", 12)
+            for w, ep in (("c", pair.c), ("s", pair.s)):
+                rl = ep.conn._recordLayer
+                stt = rl._writeState if w == who else rl._readState
+                sec = ep.conn.session.cl_app_secret if who == "c" else \
+                    ep.conn.session.sr_app_secret
+                if bytes(sec) != new or bytes(stt.encContext.key) != key or \
+                        bytes(stt.fixedNonce) != iv:
+                    v("keys", "tls13_keyupdate", "%s's %s-traffic secret/"
+                      "key/iv after KeyUpdate are not HKDF-Expand-Label("
+                      "secret, 'traffic upd') with %s" % (w, who, hname))
+        probes["keyupdate_keys_checked"] = 1
     # --- exporter
     if ver >= (3, 1):
         lab = b"EXPORTER-verif"
